@@ -12,6 +12,7 @@
   reports errors as errnos in 1..4095 or as non-OS `io::ErrorKind`s (`FsSane`).
 -/
 import Fbr.Lemmas.SrvGood
+import Fbr.Lemmas.SrvAllocs
 
 namespace Fbr.Thm.C01
 open Fbr.Srv Fbr.Wire
@@ -90,21 +91,28 @@ theorem forget_never_replies (cfg : Cfg) (fs : Call → Ans) (req : Bytes)
             · simp [bail]
             · split <;> simp [bail]
 
-/-- Every heap allocation whose size is taken from request fields is bounded by the request
-    buffer limit (1 MiB + 4 KiB) or by the size of the buffer actually presented. -/
-theorem allocs_bounded_lookup_family (hdrLen sub : Nat) (r body : Bytes) (n : Nat)
-    (hlen : hdrLen ≤ MAX_BUFFER_SIZE + BUFFER_HEADER_SIZE)
-    (h : getBody hdrLen sub r = .ok (body, n)) : n ≤ MAX_BUFFER_SIZE + BUFFER_HEADER_SIZE ∧ n ≤ r.length := by
-  unfold getBody at h
-  split at h
-  · cases h
-  · dsimp only at h
-    split at h
-    · cases h
-    · simp only [Except.ok.injEq, Prod.mk.injEq] at h
-      obtain ⟨_, rfl⟩ := h
-      unfold IN_HDR at *
-      omega
+/-- **Every heap allocation whose size is taken from request fields is bounded** by the
+    request-buffer limit (1 MiB + 4 KiB) or, if the transport presented a larger buffer, by the
+    size of that buffer — for every request, configuration and file system (no hypothesis). The
+    model records the sizes of `get_message_body`'s buffer, `batch_forget`'s and
+    `removemapping`'s vectors and `ioctl`'s input buffer. -/
+theorem allocs_bounded (cfg : Cfg) (fs : Call → Ans) (req : Bytes) :
+    ∀ a ∈ (handle cfg fs req).allocs, a ≤ max (MAX_BUFFER_SIZE + BUFFER_HEADER_SIZE) req.length := by
+  unfold handle
+  split
+  · intro a ha; cases ha
+  · split
+    · intro a ha; cases ha
+    · unfold afterRemap
+      split
+      · split
+        · intro a ha; cases ha
+        · intro a ha; cases ha
+      · next hlen =>
+        refine allocs_handleBody cfg fs _ _ _ _ _ _ _ _ ?_ (Nat.le_max_left _ _) ?_
+        · exact Nat.le_trans (Nat.not_lt.mp hlen) (Nat.le_max_left _ _)
+        · simp only [List.length_drop]
+          exact Nat.le_trans (Nat.sub_le _ _) (Nat.le_max_right _ _)
 
 /-! ### arithmetic panic sites -/
 
